@@ -406,7 +406,7 @@ class AbstractDateTime(AnyAtomicType):
             msg = '2nd argument has an invalid type {!r}'
             raise TypeError(msg.format(type(tzinfo)))
 
-        match = cls.pattern.match(datetime_string.strip())
+        match = cls.pattern.match(datetime_string.strip(' \t\n\r'))
         if match is None:
             msg = 'Invalid datetime string {!r} for {!r}'
             raise ValueError(msg.format(datetime_string, cls))
